@@ -178,7 +178,9 @@ Lemma post_before_ws p it v before after :
   ws_prefs p = true -> post p it v = (before, after) -> Forall (fun t => ws_only t = true) before.
 Proof.
   intros Hw. destruct (ws_prefs_fields p Hw) as (H1 & H2 & H3 & H4 & H5 & H6).
-  unfold post; cbv zeta. head_split; intros H; inversion H; subst; repeat constructor; assumption.
+  unfold post; cbv zeta. head_split; intros H; inversion H; subst; repeat constructor; try assumption.
+  all: try discriminate.
+  all: destruct (ty_is lit_ty_CHAR (ity it) && is_nil (selectorCombinatorSpacer p)); [vm_compute; reflexivity|assumption].
 Qed.
 
 Lemma leaves_sep_after p a v before after :
@@ -451,9 +453,11 @@ Qed.
 Lemma indentblock_keeps p text level c :
   mem c p.(lineSeparator) = false -> In c text -> indentblock p text level <> [].
 Proof.
-  intros Hc Hin. unfold indentblock. destruct (lineSeparator p) as [|s0 sp] eqn:Hsep; simpl is_nil.
+  intros Hc Hin. unfold indentblock.
+  destruct (forallb (fun c0 => mem c0 lit_indent_blank) (lineSeparator p)) eqn:Hb.
   - intros ->. contradiction.
-  - assert (Hne : s0 :: sp <> []) by discriminate.
+  - destruct (lineSeparator p) as [|s0 sp] eqn:Hsep; [simpl in Hb; discriminate|].
+    assert (Hne : s0 :: sp <> []) by discriminate.
     destruct (split_aux_keeps (s0 :: sp) c Hne Hc (S (length text)) [] text (Nat.lt_succ_diag_r _) Hin)
       as (piece & Hp & Hcp).
     apply join_nonempty with (x := repeat_str level (indent p) ++ piece).
@@ -485,4 +489,75 @@ Lemma ws_only_no_brace t : ws_only t = true -> mem 125%N t = false.
 Proof.
   intros H. destruct (mem 125%N t) eqn:Hm; [|reflexivity].
   apply mem_In in Hm. unfold ws_only in H. rewrite forallb_forall in H. specialize (H _ Hm). discriminate.
+Qed.
+
+(* ------------------------------------------------------------------ frame: only the preferences the SOURCE reads matter.
+   agree_out / agree_sheet are regenerated from the attribute reads `<x>.prefs.<name>` of the transcribed functions;
+   if the model consulted a preference the code does not read, these proofs would fail. *)
+Ltac rewrite_agree p q :=
+  repeat match goal with H : _ p = _ q |- _ => rewrite H; clear H end.
+
+Lemma append_frame p q : agree_out p q ->
+  forall lvl n rout it, append p lvl n rout it = append q lvl n rout it.
+Proof.
+  intros H lvl n rout it. unfold agree_out in H. decompose [and] H. clear H.
+  unfold append, pre, app_strip, app_text, post, indentblock, hash.
+  rewrite_agree p q. reflexivity.
+Qed.
+
+Lemma run_from_frame p q : agree_out p q ->
+  forall lvl items n rout, run_from p lvl n rout items = run_from q lvl n rout items.
+Proof.
+  intros H lvl items. induction items as [|it r IH]; intros n rout; simpl; [reflexivity|].
+  rewrite (append_frame p q H). destruct (append q lvl n rout it); [apply IH|reflexivity].
+Qed.
+
+Lemma out_text_frame p q : agree_out p q -> forall lvl items, out_text p lvl items = out_text q lvl items.
+Proof. intros H lvl items. unfold out_text, run. rewrite (run_from_frame p q H). reflexivity. Qed.
+
+Lemma agree_sheet_out p q : agree_sheet p q -> agree_out p q.
+Proof. unfold agree_sheet, agree_out. intros H. decompose [and] H. repeat split; assumption. Qed.
+
+Lemma decl_out_frame p q : agree_sheet p q -> forall omit seq, decl_out p omit seq = decl_out q omit seq.
+Proof.
+  intros H omit seq. unfold agree_sheet in H. decompose [and] H. clear H.
+  induction seq as [|d r IH]; simpl; [reflexivity|]. rewrite IH.
+  unfold do_property, propertyname, valid_ok, lstrip_lines. rewrite_agree p q. reflexivity.
+Qed.
+
+Lemma do_styledecl_frame p q : agree_sheet p q -> forall omit seq, do_styledecl p omit seq = do_styledecl q omit seq.
+Proof.
+  intros H omit seq. unfold do_styledecl. destruct seq as [|d r]; [reflexivity|].
+  rewrite !(decl_out_frame p q H). unfold agree_sheet in H. decompose [and] H. clear H.
+  rewrite_agree p q. reflexivity.
+Qed.
+
+Lemma do_rule_frame p q : agree_sheet p q -> forall r lvl, do_rule p lvl r = do_rule q lvl r.
+Proof.
+  intros H. pose proof (agree_sheet_out p q H) as Ho.
+  induction r using rule_ind'; intros lvl; simpl.
+  - unfold agree_sheet in H. decompose [and] H. rewrite_agree p q. reflexivity.
+  - unfold do_stylerule, indentblock. rewrite (do_styledecl_frame p q H).
+    unfold agree_sheet in H. decompose [and] H. rewrite_agree p q. reflexivity.
+  - destruct (negb wf); [reflexivity|].
+    match goal with |- match ?e1 with _ => _ end = match ?e2 with _ => _ end => assert (Hg : e1 = e2) end.
+    { clear -H H0 Ho. induction rs as [|r rs IH]; [reflexivity|].
+      inversion H0; subst. cbn fix beta iota. cbn match. rewrite H3. rewrite IH by assumption.
+      unfold indentblock. unfold agree_sheet in H. decompose [and] H. rewrite_agree p q. reflexivity. }
+    rewrite Hg. unfold atkeyword. unfold agree_sheet in H. decompose [and] H. rewrite_agree p q. reflexivity.
+  - unfold do_fontface. rewrite (do_styledecl_frame p q H). rewrite (out_text_frame p q Ho).
+    unfold atkeyword. unfold agree_sheet in H. decompose [and] H. rewrite_agree p q. reflexivity.
+  - reflexivity.
+  - unfold do_unknown. unfold agree_sheet in H. decompose [and] H. rewrite_agree p q. reflexivity.
+  - reflexivity.
+Qed.
+
+Theorem do_sheet_frame_lemma p q : agree_sheet p q -> forall rs, do_sheet p rs = do_sheet q rs.
+Proof.
+  intros H rs. unfold do_sheet.
+  assert (Hs : sheet_out p rs = sheet_out q rs).
+  { induction rs as [|r rs IH]; simpl; [reflexivity|].
+    rewrite (do_rule_frame p q H), IH. unfold ns_dropped.
+    unfold agree_sheet in H. decompose [and] H. rewrite_agree p q. reflexivity. }
+  rewrite Hs. unfold agree_sheet in H. decompose [and] H. rewrite_agree p q. reflexivity.
 Qed.
